@@ -244,7 +244,7 @@ Definition kv_corr_C08 := kv_corr_proj mask_C08 (rel_kv_or_admin (fun op => negb
 Definition kv_corr_C17 := kv_corr_addr mask_C17 rel_all.
 
 Definition kv_chk_C09 (c : scase * list ostep) : bool := chk_C09_kv c.
-Definition kv_chk_C11 (c : scase * list ostep) : bool := chk_C11_kv c && chk_C11_ddocs c.
+Definition kv_chk_C11 (c : scase * list ostep) : bool := chk_C11_kv c && chk_C11_ddocs c && chk_C11_views c.
 Definition kv_chk_C18 (c : scase * list ostep) : bool := chk_C18_kv c.
 
 (* the same checkers applied to the MODEL's own trace of the recorded inputs (evaluated, not proved:
